@@ -78,7 +78,7 @@ fn certainly_ill_formed(line: &str) -> Option<&'static str> {
 
 pub fn run(tier: Tier) -> i32 {
     let rep = Report::new("C17", tier, "model_checking");
-    rep.set_rule("SCOPE: (forms) utterances x {&[&str], &[String], Vec<String>, &[&str; N], Vec<Label>} x a blank line inserted at every position x time stamps present/absent with alignment off, and time-stamped lines with blank lines at every position with alignment on, waveforms compared bit-exactly; (faults) 5 base lines (plain label, label with times, label with fractional times, and two already ill-formed ones: one time stamp deleted, /K: section deleted): every single-character deletion, duplication, and substitution/insertion from a 30-symbol alphabet at every position, every prefix truncation, every token deletion/duplication, 14 special time tokens; thorough: all pairs of substitutions on a 40-character window; oracle: never a panic, Err required for certainly ill-formed lines (two tokens, time rejected by f64::from_str, missing phoneme separator or /A:../K: marker); distinct = distinct corrupted line; non-trivial = line differs from the base");
+    rep.set_rule("SCOPE: (forms) utterances x {&[&str], &[String], Vec<String>, &[&str; N], Vec<Label>} x a blank line inserted at every position x time stamps present/absent with alignment off, and time-stamped lines with blank lines at every position with alignment on, waveforms compared bit-exactly; (faults) 5 base lines (plain label, label with times, label with fractional times, and two already ill-formed ones: one time stamp deleted, /K: section deleted): every single-character deletion, duplication, and substitution/insertion from a 33-symbol alphabet (incl. line breaks) at every position, every prefix truncation, every token deletion/duplication, 14 special time tokens; thorough: all pairs of substitutions on a 40-character window; oracle: never a panic, Err required for certainly ill-formed lines (two tokens, time rejected by f64::from_str, missing phoneme separator or /A:../K: marker); distinct = distinct corrupted line; non-trivial = line differs from the base");
     rep.assume("single faults (pairs on one window in the thorough tier); lines that are not certainly ill-formed may be accepted or rejected");
     let corpus = labels::corpus();
     let tiny = engine_from_bytes(&GenCfg { nstate: 2, ..GenCfg::default() }.bytes()).expect("generated voice");
@@ -157,7 +157,7 @@ pub fn run(tier: Tier) -> i32 {
         }
     }
     // ---------- faults ----------
-    let alphabet: Vec<String> = vec![" ", "\t", "\0", "/", ":", "+", "-", "=", "^", "_", "!", "#", "@", "|", "&", "%", "0", "9", "x", "a", "A", "Z", ".", "e", "E", "*", "?", "\"", "\u{3042}", "\u{7f}"].into_iter().map(String::from).collect();
+    let alphabet: Vec<String> = vec![" ", "\t", "\0", "/", ":", "+", "-", "=", "^", "_", "!", "#", "@", "|", "&", "%", "0", "9", "x", "a", "A", "Z", ".", "e", "E", "*", "?", "\"", "\u{3042}", "\u{7f}", "\n", "\r\n", "\r"].into_iter().map(String::from).collect();
     // three well-formed bases, and two that are already ill-formed (every fault on them is a double fault of the
     // original line): a two-token line (one time stamp deleted) and a timed line whose label lost its /K: section
     let bases: Vec<String> = vec![
@@ -280,6 +280,17 @@ pub fn run(tier: Tier) -> i32 {
         }
         if certainly_ill_formed(line).is_some() {
             must_err.fetch_add(1, Ordering::Relaxed);
+        }
+        // every string form must treat the line the same way (accept/reject and number of frames)
+        let as_slice = catch(|| tiny.generator(&one[..]).map(|g| g.verif_parameters().1.len()).map_err(|_| ()));
+        let as_vec = catch(|| tiny.generator(vec![line.clone()]).map(|g| g.verif_parameters().1.len()).map_err(|_| ()));
+        let arr: [String; 1] = [line.clone()];
+        let as_arr = catch(|| tiny.generator(&arr).map(|g| g.verif_parameters().1.len()).map_err(|_| ()));
+        rep.cmp(2);
+        if let (Ok(a), Ok(b), Ok(c)) = (&as_slice, &as_vec, &as_arr) {
+            if a != b || a != c {
+                rep.violation("forms-disagree-on-bad-text", format!("the input forms treat the same line differently: &[&str] {:?}, Vec<String> {:?}, &[String; 1] {:?}", a, b, c), json!({"line": line}));
+            }
         }
     });
     // the uncorrupted bases must be accepted
